@@ -55,7 +55,9 @@ CLAIMED = {
              "bytes x raw-sense on/off x (no / stale) cached sense, lifted to every history of executions incl. re-used command objects by "
              "induction (returns normally only for GOOD; CHECK CONDITION raises CheckCondition with THIS execution's sense or, only when "
              "asked, attaches the raw sense; each other status raises its named error). The semantics of the small act language is tied to "
-             "the real device classes over stub bindings by a 1500-history correspondence run (all 256 statuses exhaustively).",
+             "the real device classes over stub bindings by a 1500-history correspondence run (all 256 statuses exhaustively). Histories of facade calls on ONE SCSI object over the real SCSIDevice / ISCSIDevice (stub bindings), the answers of the target scripted per call as a list (a hidden "
+             "re-execution meets the next one), incl. a sweep of all 16 sense keys x 10 ASC/ASCQ pairs x both sense formats, are judged on every run: a call returns normally only if the "
+             "FIRST answer was GOOD; SCSI.execute is regenerated and must be the plain pass-through.",
         ref="DESIGN.md §4 C07",
         note="Partial: the behaviour of the real sgio/iscsi C bindings is the stated contract (the stubs implement exactly it); the facade's "
              "pass-through of the error is covered by the facade model of C13.",
@@ -66,7 +68,9 @@ CLAIMED = {
              "theorems over a model whose format dispatch, lookup forms (.get with default vs. subscript, guard for undecoded data) and "
              "tables are REGENERATED from scsi_sense.py on every run, under decidable side conditions evaluated by vm_compute; a subset of "
              "28 T10 ASC/ASCQ texts is compared entry by entry. Tied by a 3000-case correspondence run (all response-code classes x all "
-             "16 keys x boundary and all assigned ASC/ASCQ x 10 length classes).",
+             "16 keys x boundary and all assigned ASC/ASCQ x 10 length classes). The ORDER of the tests in _describe_ascq is regenerated as a list of steps and C08_described_by_t10_text proves that every code of the T10 subset - "
+             "including 40h/00h and 5Dh/FFh, whose qualifier is 00h of a parametric family resp. lies in the vendor specific range - is DESCRIBED by its T10 text; the printed text is "
+             "compared with T10 on the implementation, and error objects are printed again after later sense buffers were decoded.",
         ref="DESIGN.md §4 C08",
         note="Partial: only a subset of the T10 ASC/ASCQ text list is in Spec/SenseFmt.v (totality and positions are full); texts are "
              "compared case-insensitively; text formatting ('%02X') is observed through a parser of str() in the harness.",
@@ -125,7 +129,9 @@ CLAIMED = {
              "obtain alone. The premise is tied to the code by a footprint scan (writes to class attributes, globals, caller dict/list "
              "arguments inside functions of the command modules) REGENERATED on every run and required empty, by the constructor "
              "correspondence, and by an implementation run: 700 sequential histories (all ordered class pairs, triples), ~1000 two-thread "
-             "schedules under a settrace-controlled line-granular scheduler, input-mutation and determinism probes.",
+             "schedules under a settrace-controlled line-granular scheduler, input-mutation and determinism probes. The inventory of class SCSICommand (its codec methods must be exactly the text Model/Command.v models, properties only touch their own slot, no other member, decorator "
+             "or mutable class-level object) is an obligation of C01, C02 and C09; class-level mutables changed in place through any receiver, overrides of base-class methods and "
+             "memoisation decorators are part of the footprint; every class is also built against itself with other (also optional) argument values and cmd.unmarshall() of every earlier command is observed.",
         ref="DESIGN.md §4 C09",
         note="Partial: schedules are explored at source-line granularity (the property's); CPython's bytecode-granular preemption and the GIL "
              "are outside the model — with an empty footprint the conclusion does not depend on the granularity. The footprint scan (class "
@@ -139,7 +145,9 @@ CLAIMED = {
              "body computes; the per-loop obligation (stride >= 1, decided by vm_compute on the regenerated skeleton) and the `for` loops "
              "(over a buffer slice, a caller range or a dict) are checked on every run. Every public decoder is also run on the real code "
              "under a line-count budget linear in the buffer length on empty, truncated, all-zero, all-0xFF, zero-length-field, "
-             "huge-length-field and random buffers.",
+             "huge-length-field and random buffers. For GET LBA STATUS and PERSISTENT RESERVE IN / READ KEYS the REGENERATED decoder bodies themselves are proved total on EVERY byte string under Model/Py.v: "
+             "with fuel len(data)+3 they return a value (no exception, no fuel exhaustion) that is spelled out (C11_py_*_every_input, C11_py_no_divergence). A second, "
+             "process-level budget (CPU time per call, batches under a deadline, bisected) covers work inside C code (regular expressions) and nested sense descriptors.",
         ref="DESIGN.md §4 C11",
         note="Trusted: Coq kernel + vm_compute; the loop-skeleton translator (fail-closed: unknown loop shapes are listed and must be empty); "
              "the budget oracle's constant (1500 lines/byte + 5000). Partial: the skeleton abstracts the loop bodies (they only matter "
@@ -155,7 +163,8 @@ CLAIMED = {
              "results. The facade action lists, opcode values, constructor IR and mask tables are REGENERATED from /repo on every run and each "
              "command form is evaluated symbolically (all argument values at once) through the IR semantics inside the kernel. The same "
              "histories are run through the real facade/devices over substituted sgio/iscsi modules backed by an independent Python target, "
-             "compared with the model and with a shadow map of last-written data.",
+             "compared with the model and with a shadow map of last-written data. The target simulator also queues unit attention conditions between calls (a call none of whose commands was performed must not return normally), and the data-in "
+             "buffers of READs are kept alone (commands dropped) and compared again after the history.",
         ref="DESIGN.md §4 C12",
         note="Trusted: Coq kernel + vm_compute; translators (validated by reflection, constructor and facade correspondences); Spec/Target.v and "
              "its Python twin tools/sim_target.py (my reading of SBC-3/SPC-4); hand model of the transport glue (wire/fill, tied by the stack "
@@ -208,7 +217,10 @@ CLAIMED = {
              "byte strings: decode(build d) = d, build(decode b) = b byte for byte, and read-modify-write of one value changes only that "
              "field's bits (rmw_only_that_field). For GET LBA STATUS and REPORT LUNS the builder's length store and the decoder's list "
              "parameters (both regenerated) agree, and a generic theorem gives the list round trip for every number of descriptors. All 15 "
-             "structures plus every TransportID and designator kind are round-tripped through the real parser/builder pairs on every run.",
+             "structures plus every TransportID and designator kind are round-tripped through the real parser/builder pairs on every run. Both directions of a list structure over the REGENERATED bodies of builder and decoder (Gen/PyFuncs.v under Model/Py.v): GET LBA STATUS "
+             "built from any number of complete valid descriptor dictionaries has the standard layout with an honest PARAMETER DATA LENGTH, and decoding what was built "
+             "returns the dictionaries whole and in order (C06_py_getlbastatus_build, C06_py_getlbastatus_parse_inverts_build). Rebuilds are also run with the keys of every "
+             "dictionary reversed / shuffled, with 10..130 list entries, and with UTF-8 names.",
         ref="DESIGN.md §4 C06",
         note="Trusted: Coq kernel + vm_compute; translator; the canonical-response generator tools/spec_resp.py. Partial: how builders and "
              "parsers of the nested structures (designators, RTPG groups, READ ELEMENT STATUS pages, mode page lists) assemble their parts is "
@@ -236,7 +248,8 @@ CLAIMED = {
              "entry of the five opcode tables, their service-action tables and the status table REGENERATED from "
              "scsi_enum_command.py on every run, against a hand-written T10 table (Spec/T10Opcodes.v, Spec/SAM.v); consistency of "
              "names across sets; init_cdb's range table (regenerated from scsi_command.py) equals the SAM group rule for all 256 "
-             "operation codes. Finite domains, exhaustive, bounds in the statements.",
+             "operation codes. Finite domains, exhaustive, bounds in the statements. The tables are judged a second time as a caller finds them AFTER the library was used in the process (a facade attached and re-attached to devices of all 32 "
+             "peripheral device types x 5 fillings of the other INQUIRY bytes, every facade method called once).",
         ref="DESIGN.md §4 C14",
         note="Trusted: Coq kernel + vm_compute; the translator (validated against runtime reflection of the Enum objects on every run); "
              "Spec/T10Opcodes.v and Spec/SAM.v (my transcription of T10's assignments); 8-line hand model of the range-table "
